@@ -407,3 +407,106 @@ class AstVarsTheory(ClauseTheory):
                     outs.append((st2, SV('SS', '(tavarsl %s)' % lst.e)))
                 return outs
         return ClauseTheory.call_name_ast(self, ex, e, st)
+
+
+class ProgramTheory(ClauseTheory):
+    """compile_program / compile_function: the program dictionary as the sequence of its keys in insertion order (values are the
+    clause lists, consumed lazily by the code generator: not evaluated here), YPCodeFunction as FN, the function list as Seq FN"""
+
+    def mk_param(self, ex, st, n, sort, sub):
+        if sort == 'PK':
+            return SV('PK', ex.fresh('PK', n))
+        if sort == 'ProgDict':
+            return SV('ProgDict', ex.fresh('(Seq PK)', n))
+        if sort == 'Any':
+            return SV('Any', None)
+        return ClauseTheory.mk_param(self, ex, st, n, sort, sub)
+
+    def mk_ret(self, ex, sort, e, st):
+        if sort in ('FN', 'FNS'):
+            return SV(sort, e)
+        return ClauseTheory.mk_ret(self, ex, sort, e, st)
+
+    def smt_sort(self, sort):
+        return {'FNS': '(Seq FN)', 'ProgDict': '(Seq PK)'}.get(sort) or ClauseTheory.smt_sort(self, sort)
+
+    def havoc_sv(self, ex, st, v, hint):
+        if v.sort == 'FNS':
+            return SV('FNS', ex.fresh('(Seq FN)', hint))
+        if v.sort in ('ProgDict', 'Any', 'PK'):
+            return v
+        return ClauseTheory.havoc_sv(self, ex, st, v, hint)
+
+    def subscript(self, ex, e, base, idx, st):
+        if base.sort == 'PK' and idx.sort == 'Int' and idx.e in ('0', '1'):
+            return [(st, SV('Str', '(pkname %s)' % base.e) if idx.e == '0' else SV('Int', '(pkarity %s)' % base.e))]
+        return ClauseTheory.subscript(self, ex, e, base, idx, st)
+
+    def adjust_assign(self, ex, tgt, v, st):
+        if isinstance(tgt, ast.Name) and tgt.id == 'funcs' and v.sort == 'PyList' and not v.meta['items']:
+            return SV('FNS', '(as seq.empty (Seq FN))')
+        return ClauseTheory.adjust_assign(self, ex, tgt, v, st)
+
+    def apply_method(self, ex, e, base, meth, args, st):
+        if base.sort == 'FNS' and meth == 'append' and len(args) == 1 and args[0].sort == 'FN' and isinstance(e.func.value, ast.Name):
+            st.env[e.func.value.id] = SV('FNS', '(seq.++ %s (seq.unit %s))' % (base.e, args[0].e))
+            return [(st, NONE)]
+        if base.sort == 'ProgDict' and meth == 'items' and not args:
+            return [(st, SV('ProgItems', base.e))]
+        return ClauseTheory.apply_method(self, ex, e, base, meth, args, st)
+
+    def apply_name(self, ex, e, name, args, st):
+        if name == 'YPCodeFunction' and len(args) == 3 and args[0].sort == 'Str' and args[1].sort == 'SS':
+            return [(st, SV('FN', '(mkFN %s %s)' % (args[0].e, args[1].e)))]
+        if name == 'YPCodeProgram' and len(args) == 1 and args[0].sort == 'FNS':
+            return [(st, SV('FNS', args[0].e))]
+        return ClauseTheory.apply_name(self, ex, e, name, args, st)
+
+    def call_name_ast(self, ex, e, st):
+        # itertools.chain.from_iterable(<generator expression>): a lazy iterator - nothing of the generator expression runs here
+        if ast.unparse(e.func) == 'itertools.chain.from_iterable' and len(e.args) == 1 and isinstance(e.args[0], ast.GeneratorExp):
+            return [(st, SV('Any', None))]
+        return ClauseTheory.call_name_ast(self, ex, e, st)
+
+    def ev_ListComp(self, ex, e, st):
+        # [self.M(i) for i in range(N)] with M a pure contract function and F = ghost range_map the recursive spec of the list:
+        # F(0) = [], F(k+1) = F(k) ++ [M(k)] (obligation), value F(N)
+        g = e.generators[0] if len(e.generators) == 1 else None
+        F = ex.c.ghost.get('range_map')
+        if F and g is not None and not g.ifs and isinstance(g.target, ast.Name) and isinstance(g.iter, ast.Call) \
+                and ast.unparse(g.iter.func) == 'range' and len(g.iter.args) == 1 and isinstance(e.elt, ast.Call) \
+                and isinstance(e.elt.func, ast.Attribute) and ast.unparse(e.elt.func.value) == 'self' \
+                and len(e.elt.args) == 1 and ast.unparse(e.elt.args[0]) == g.target.id:
+            cls = ex.qualname.split('.')[0]
+            c = ex.reg.get('%s.%s.%s' % (ex.modname, cls, e.elt.func.attr))
+            if c is None or c.kind != 'pure' or c.value is None or c.ret != 'Str':
+                return None
+            outs = []
+            for st2, nv in ex.eval(g.iter.args[0], st):
+                if isinstance(nv, Exc) or nv.sort != 'Int':
+                    raise OutOfSubset('range comprehension bound', e)
+                k = ex.fresh('Int', 'lift_k')
+                ex.oblige(st2.fork().tag('lift'), 'comprehension.range_map.lift',
+                          AND(EQ('(%s 0)' % F, '(as seq.empty SS)'),
+                              '(=> (>= %s 0) (= (%s (+ %s 1)) (seq.++ (%s %s) (seq.unit %s))))' % (k, F, k, F, k, c.value.replace('{i}', k))), 'post')
+                outs.append((st2, SV('SS', '(%s %s)' % (F, nv.e))))
+            return outs
+        return ClauseTheory.ev_ListComp(self, ex, e, st)
+
+    def st_For(self, ex, s, v, st, k):
+        if v.sort == 'ProgItems' and isinstance(s.target, ast.Tuple) and len(s.target.elts) == 2 \
+                and all(isinstance(t, ast.Name) for t in s.target.elts):
+            n, spec = ex.loop_spec(s)
+            if spec is None:
+                raise OutOfSubset('loop %d of %s has no invariant in the sidecar contract' % (n, ex.qualname), s)
+            # index-based: the i-th item is (key_i, clauses_i); tuple target bound through a synthetic single name
+            tgt = s.target
+            s2 = ast.For(target=ast.Name(id='__item', ctx=ast.Store()), iter=s.iter,
+                         body=[ast.Assign(targets=[tgt], value=ast.Name(id='__item', ctx=ast.Load()), lineno=s.lineno)] + s.body, orelse=[])
+            ast.copy_location(s2, s)
+            ast.fix_missing_locations(s2)
+            ex.loop_ord[id(s2)] = n
+            ex._for_range(s2, n, spec, SV('Int', '(seq.len %s)' % v.e), st, k,
+                          elem=lambda kx: SV('Tuple', None, {'items': [SV('PK', '(seq.nth %s %s)' % (v.e, kx)), SV('Any', None)]}))
+            return True
+        return ClauseTheory.st_For(self, ex, s, v, st, k)
